@@ -7,7 +7,7 @@
 From Coq Require Import List String NArith ZArith Bool Permutation.
 From GoMC Require Model.C20 Proofs.C20 Proofs.C20_ll Proofs.C20_term Proofs.C20_top.
 From GoMC Require Import Base.Bytes Base.Dec Gen.Consts Gen.Gate Model.C05 Model.C07 Model.C19_syntax Model.C19
-  Proofs.C07 Proofs.C19_net Proofs.C19_gate Proofs.C19_play Proofs.C19_disp Proofs.C19_expected Proofs.C19_skel Proofs.C19_reg Proofs.C19_skel_disp Proofs.C19_close Proofs.C19_conn.
+  Proofs.C07 Proofs.C19_net Proofs.C19_gate Proofs.C19_play Proofs.C19_disp Proofs.C19_expected Proofs.C19_skel Proofs.C19_reg Proofs.C19_skel_disp Proofs.C19_close Proofs.C19_conn Proofs.C19_closei.
 Import ListNotations.
 Open Scope Z_scope.
 
@@ -180,6 +180,50 @@ Theorem C19_close_conn_reported :
   let es := repeat QReader (Datatypes.S (List.length wire)) ++ repeat QRead (Datatypes.S (List.length wire)) in
   q_errs (qrun wire es) = 1%nat /\ q_got (qrun wire es) = wire.
 Proof. exact conn_failure_reported. Qed.
+(* Close in the TWO-machine interleaving model (Model/C19.v Part 6: either side may stop at any step;
+   the transport delivers what was written before and then end-of-stream; the server also stops by
+   returning).  From ANY state y - in particular every reachable state of every interleaving - when the
+   server stops and the turns are then scheduled in any way (es: bot turns, server turns, further stop
+   events of the server side), the bot's state is the single-machine run on the frames still in flight
+   followed by end-of-stream, and after at most bdepth + 2 * in-flight + 1 bot turns the bot has returned
+   and stays in that state; symmetrically for the gate when the bot side stops.  So every partial run
+   can be completed, with end-of-stream, to a state where the survivor has returned. *)
+Theorem C19_close_interleaved :
+  forall (offl : list N -> list N) (bc : bcfg) (sc : scfg),
+  (forall (y : csys) (es : list cev), c_bstop y = false -> count_ev CStopB es = 0%nat ->
+     let b0 := x_b (c_x y) in let inflight := x_s2c (c_x y) in
+     let y' := crun offl bc sc (CStopS :: es) y in
+     x_b (c_x y') = snd (bot_feed bc (count_ev CB es) b0 inflight) /\
+     exists bound, (bound <= bdepth b0 + 2 * List.length inflight + 1)%nat /\
+       ((bound <= count_ev CB es)%nat ->
+        bot_act bc (x_b (c_x y')) = AHalt /\ x_b (c_x y') = snd (bot_feed bc bound b0 inflight))) /\
+  (forall (y : csys) (es : list cev), c_sstop y = false -> count_ev CStopS es = 0%nat ->
+     let s0 := x_s (c_x y) in let inflight := x_c2s (c_x y) in
+     let y' := crun offl bc sc (CStopB :: es) y in
+     x_s (c_x y') = snd (srv_feed offl sc (count_ev CS es) s0 inflight) /\
+     exists bound, (bound <= srvdepth s0 + (List.length (sc_registries sc) + 3) * List.length inflight + 1)%nat /\
+       ((bound <= count_ev CS es)%nat ->
+        srv_act offl sc (x_s (c_x y')) = AHalt /\ x_s (c_x y') = snd (srv_feed offl sc bound s0 inflight))).
+Proof. exact close_interleaved. Qed.
+(* the read that meets the end of the stream names the stage *)
+Theorem C19_close_eof_stage :
+  forall (bc : bcfg) (x : sys bot srv), x_s2c x = [] ->
+  (b_ph (x_b x) = BLogin -> b_ph (x_b (bot_turn bc true x)) = BFailed stLoginRead) /\
+  (b_ph (x_b x) = BConfig -> b_ph (x_b (bot_turn bc true x)) = BFailed stConfigRead) /\
+  (b_ph (x_b x) = BStatusList -> b_ph (x_b (bot_turn bc true x)) = BFailed stStatusRead).
+Proof. exact eof_names_stage. Qed.
+(* the cut cases against the reference transcript of C19_join (finish-only handler): for EVERY prefix
+   length k the outcome cut_outcome_bot computes - the function the correspondence run's `cut` cases
+   compare with the implementation - is a login-stage error, a configuration-stage error, or joined *)
+Theorem C19_cut_outcome :
+  forall (offl : list N -> list N) (bc : bcfg) (sc : scfg) (k : nat),
+  sc_cfg sc = CfgFinishOnly ->
+  let p := (if compress_on (sc_threshold sc) then 1 else 0)%nat in
+  (k <= p + 2)%nat ->
+  b_ph (cut_outcome_bot bc k (join_s2c offl bc sc)) =
+    if (k <=? p)%nat then BFailed stLoginRead else if (k <=? p + 1)%nat then BFailed stConfigRead else BJoined.
+Proof. exact cut_outcome_finish_only. Qed.
+
 (* The same guarantees obtained from C20 instead of a second model: the queue under warpConn IS C20's
    machine running the programs translated from net/queue/queue.go, with the reader goroutine as the
    producer (one Push per packet received, Close at the first read error - the shape is read off the
@@ -515,6 +559,9 @@ Print Assumptions C19_close_bot.
 Print Assumptions C19_close_server.
 Print Assumptions C19_close_conn.
 Print Assumptions C19_close_conn_reported.
+Print Assumptions C19_close_interleaved.
+Print Assumptions C19_close_eof_stage.
+Print Assumptions C19_cut_outcome.
 Print Assumptions C19_close_conn_c20.
 Print Assumptions C19_close_conn_c20_terminates.
 Print Assumptions C19_skeleton_conn.
